@@ -284,4 +284,39 @@ example : 1 ≤ (runObj (codecOf .rs).canDecode wRc (wObj true) {} ([] ++ Ev.fdt
     exact ⟨2, by decide, by decide⟩
   · exact fits_of_noacct wRc (wObj true) (by simp [wObj, wRc]) rfl
 
+/-! non-vacuity of the stream-level theorem: a 4-packet session (one FDT packet, RS block k = 2, p = 1),
+    the first source symbol lost -/
+
+def exF : FdtCfg := { id := 1, ks := #[1], files := [1] }
+def exS : SessCfg := { fdtScheme := .nocode, fdtP := 0, w := 1, objs := [wObj true], fdts := [exF] }
+def exStream : List Pkt :=
+  [⟨0, 1, 0, 0, false⟩, ⟨1, 0, 0, 0, false⟩, ⟨1, 0, 0, 1, false⟩, ⟨1, 0, 0, 2, true⟩]
+
+example : 1 ≤ (observe (codecOf .nocode).canDecode (codecOf .rs).canDecode wRc exS (wObj true)
+    (applyMults exStream [1, 0, 1, 1])).completes := by
+  apply recoverable_delivers_stream (codecOf .nocode) (codecOf .rs) wRc exS (wObj true) (by decide) (by decide)
+    (fits_of_noacct _ _ (by decide) rfl) ?_ exF rfl (by decide) (by decide) (by decide) exStream [1, 0, 1, 1]
+    [⟨0, 1, 0, 0, false⟩] [⟨1, 0, 0, 1, false⟩, ⟨1, 0, 0, 2, true⟩] (by decide)
+  · intro p hp h0 _
+    simp only [exStream, List.mem_cons, List.not_mem_nil, or_false] at hp
+    rcases hp with rfl | rfl | rfl | rfl <;> first | exact ⟨⟨1, by decide, by decide⟩, rfl⟩ | (simp at h0)
+  · intro q hq
+    simp only [osyms, exStream, toSym, wObj] at hq
+    simp at hq
+    rcases hq with rfl | rfl | rfl <;> exact ⟨2, by decide, by decide⟩
+  · simp [osyms, exStream, toSym, wObj, OnlyLast]
+  · intro b hb
+    have : b = 0 := by simp [fdtObj, exF] at hb; omega
+    subst this
+    exact ⟨1, by decide, by decide⟩
+  · intro q hq; simp [osyms, wObj] at hq
+  · intro b hb
+    have : b = 0 := by simp [wObj] at hb; omega
+    subst this
+    exact ⟨2, by decide, by decide⟩
+  · simp [osyms, wObj]
+  · intro f hf
+    simp only [exS, List.mem_singleton] at hf
+    subst hf; decide
+
 end Flute.Props.C02
